@@ -183,7 +183,23 @@ def r3(cx):
             for k, d in pdu.defs.get(l, []):
                 if k == "stmt" and d.rplace is not None: f += d.rplace.fields()
         return f
-    if len(sends) != 1 or len(joins) != 1 or len(term) != 1: why.append("expected one send(Terminate) loop and one join loop (sends %d, joins %d)" % (len(sends), len(joins)))
+    clos = [x for x in pd.unit.bodies if x.promoted is None and x.parent == pd.path]
+    csend = [(c, t) for c in clos for t in c.calls("=send")]; cjoin = [(c, t) for c in clos for t in c.calls("=join")]
+    cterm = [st for c in clos for st in c.stmts() if st.kind == "assign" and st.rv == "agg" and isinstance(st.agg, dict) and st.agg.get("variant") == "Terminate"]
+    if not sends and not joins and len(csend) == 1 and len(cjoin) == 1 and len(cterm) == 1:
+        # iterator spelling: workers.iter().for_each(|_| sender.send(Terminate)); workers.iter_mut().filter_map(take).for_each(join)
+        fe = [t for t in pd.calls("=for_each", "=try_for_each")]
+        iters = [t for t in pd.calls("=into_iter", "=iter_mut", "=iter") if "workers" in fields(t)]
+        def feeds(t, clo):
+            from .roles import _closure_args
+            return clo.path in _closure_args(pd, pdu, t)
+        fs = [t for t in fe if feeds(t, csend[0][0])]; fj = [t for t in fe if feeds(t, cjoin[0][0])]
+        wrefs = [st for st in pd.stmts() if st.kind == "assign" and st.rplace is not None and st.rplace.fields()[-1:] == ["workers"]]
+        if len(iters) < 2 and len(wrefs) < 2: why.append("the send and join passes do not both run over `workers`")
+        if len(fs) != 1 or len(fj) != 1: why.append("the send/join closures are not each driven by one for_each")
+        elif not (pcfg.dominates(fs[0].bb, fj[0].bb) and fs[0].bb not in pcfg.reach(fj[0].target)): why.append("a worker is joined before every Terminate was sent: with queued jobs in front the join can wait for a worker that never gets its Terminate")
+        # lazy adaptors between iter and for_each must not interleave the two passes (they are two separate statements here)
+    elif len(sends) != 1 or len(joins) != 1 or len(term) != 1: why.append("expected one send(Terminate) loop and one join loop (sends %d, joins %d)" % (len(sends), len(joins)))
     else:
         if "sender" not in fields(sends[0]): why.append("Terminate is not sent on the pool's job channel (behind queued jobs)")
         iters = [t for t in pd.calls("=into_iter", "=iter_mut", "=iter") if "workers" in fields(t)]
@@ -311,13 +327,16 @@ def r5(cx):
     isset = ac.calls("=FD_ISSET")
     if len(isset) != 1 or isset[0].target is None: why.append("%d FD_ISSET tests after select()" % len(isset))
     else:
-        sw = ac.blocks[isset[0].target].term
-        not_set = None
-        if sw.kind == "switch":
-            c = switch_cond(ac, du, sw)
-            te, fe = bool_edges(sw, c)
-            not_set = fe
-        for st in to:
-            if not_set is None or not cfg.edge_dominates(not_set, st.bb):
+        from vlib.cfg import enumerate_paths
+        from vlib.pathcond import literals
+        tb = {st.bb for st in to}
+        limit = []
+        paths = enumerate_paths(cfg, 0, lambda blk: blk.idx in tb or blk.term.kind == "return", du=du, on_limit=lambda: limit.append(1))
+        if limit: why.append("too many paths in accept()")
+        for p in paths:
+            if p[-1] not in tb: continue
+            if not any(l.kind == "call" and l.obj is isset[0] and not l.truth for l in literals(ac, p)):
+                st = [x for x in to if x.bb == p[-1]][0]
                 why.append("ErrorKind::Timeout is also built at %s, not behind the `descriptor not readable after select()` edge: a caller that charges one poll interval per Timeout then times out early (e.g. after a signal)" % st.sp)
+                break
     cx.check(not why, "C15.R5", "varlink:Listener::accept:timeval-units", ac.sp, "; ".join(why), note_ok="tv_sec = ms/1000, tv_usec = (ms%1000)*1000; !FD_ISSET -> Err(Timeout)")
